@@ -410,7 +410,16 @@ def r04_4(run):
                     for n in gu.nodes_containing(encl):
                         gs = gu.guarded_by(n, lambda t: _method_atom(t) == 'SAFECOOKIE')
                         if not any(lab == 'F' for _, lab in gs):
-                            ok = False
+                            # not by dominance - then on every feasible path (atoms evaluated consistently along a path: two flat
+                            # guards `if cookie_auth and SAFECOOKIE...: return` / `if cookie_auth and COOKIE...:` exclude it as well)
+                            ok_paths = True
+                            for p_ in gu.paths(stop=lambda x, n=n: x is n, follow_exc=False):
+                                if p_.last is not n:
+                                    continue
+                                took = [b for t_, b in p_.took(lambda t: _method_atom(t) == 'SAFECOOKIE')]
+                                if not took or any(took):
+                                    ok_paths = False
+                            ok = ok and ok_paths
             run.ob('R04.4', u, a, 'the raw cookie flows only into len/HMAC (and AUTHENTICATE when SAFECOOKIE is not advertised)', ok,
                    slot='cookie-flow@%s:%s' % (u.short, what[:30]),
                    message='raw cookie data reaches %s in %s' % (what, u.short))
@@ -527,8 +536,22 @@ def r04_5(run):
                message='%s: the authentication chain does not end in addErrback(self._auth_failed): a failure there never fails post_bootstrap' % name)
     cm = U(run, 'connectionMade')
     cbs = [dotted(c.args[0]) for c in calls_in(cm) if callee_attr(c) == 'addCallback' and c.args]
-    run.ob('R04.5', cm, cm.node, 'connectionMade chains _do_authenticate on PROTOCOLINFO', 'self._do_authenticate' in cbs and
-           any(dotted(c.func) in ('self.protocolinfo',) or (callee_attr(c) == 'queue_command' and cmd_prefix(cm, c) == 'PROTOCOLINFO') for c in calls_in(cm)),
+    okc = 'self._do_authenticate' in cbs and \
+        any(dotted(c.func) in ('self.protocolinfo',) or (callee_attr(c) == 'queue_command' and cmd_prefix(cm, c) == 'PROTOCOLINFO') for c in calls_in(cm))
+    if not okc:
+        # the same two steps as a coroutine of the class that connectionMade starts: x = yield self.protocolinfo(); yield self._do_authenticate(x)
+        for c in calls_in(cm):
+            d = dotted(c.func) or ''
+            if d.startswith('self.') and d.count('.') == 1:
+                hu = run.idx.find_method(ci, d[5:])
+                if hu is None or not hu.is_inline_callbacks():
+                    continue
+                got = names_defined_by(hu, lambda v: isinstance(v, ast.Yield) and isinstance(v.value, ast.Call) and dotted(v.value.func) == 'self.protocolinfo')
+                fed = [x for x in walk_unit(hu) if isinstance(x, ast.Call) and dotted(x.func) == 'self._do_authenticate' and x.args and dotted(x.args[0]) in got]
+                awaited = [y for y in walk_unit(hu) if isinstance(y, (ast.Yield, ast.Return)) and y.value in fed]
+                if got and fed and awaited:
+                    okc = True
+    run.ob('R04.5', cm, cm.node, 'connectionMade chains _do_authenticate on PROTOCOLINFO', okc,
            slot='connectionMade-chain', message='connectionMade does not start PROTOCOLINFO -> _do_authenticate')
     af = U(run, '_auth_failed')
     for c in calls_in(af, 'self.post_bootstrap.errback'):
